@@ -151,6 +151,59 @@ def _safe_num(f):
         return ("exc", type(e).__name__)
 
 
+SIZE_CAP = 400        # expanded (tree) size above which a returned expression is not pooled for further use
+HEAVY_CAP = 60        # symbolic work (as_expression, normalise, early construction) only on expressions up to this size
+
+
+def expanded_size(obj, memo=None):
+    """Tree-expanded node count of a live expression, computed on the DAG (memo by object identity)."""
+    if memo is None:
+        memo = {}
+    key = id(obj)
+    if key in memo:
+        return memo[key]
+    try:
+        kids = S.children_of(obj)
+    except AttributeError:
+        kids = []
+    total = 1
+    for k in kids:
+        total += expanded_size(k, memo)
+        if total > 10 ** 9:
+            break
+    memo[key] = total
+    return total
+
+
+POW_CHAIN_CAP = 10 ** 5
+
+
+def pow_chain(obj, memo=None):
+    """Largest product of NthPower / NthRoot parameters along a root-to-leaf path.  The library
+    multiplies nested integer powers (NthPower(NthPower(u, m), n) -> NthPower(u, m*n)) and computes
+    x ** n exactly on int leaves, so cycles of simplify -> re-embed -> simplify would have the
+    simulator wait for million-digit integers; pooled expressions stay below POW_CHAIN_CAP."""
+    if memo is None:
+        memo = {}
+    key = id(obj)
+    if key in memo:
+        return memo[key]
+    best = 1
+    try:
+        for k in S.children_of(obj):
+            c = pow_chain(k, memo)
+            if c > best:
+                best = c
+        if type(obj).__name__ in ("NthPower", "NthRoot"):
+            n = getattr(obj, "_parameter", 1)
+            if isinstance(n, int) and n > 1:
+                best *= n
+    except AttributeError:
+        pass
+    memo[key] = best
+    return best
+
+
 class World:
     """Live objects of one run: every node built once (sharing == spec sharing)."""
 
@@ -162,14 +215,32 @@ class World:
         self.creator = {}
         self.switched = {}
         self._tree_memo = {}
-        live = []
-        for i, node in enumerate(self.nodes):
+        live = [None] * len(self.nodes)
+        # "creation_order" (optional) is any topological order of the table: the structure is the
+        # same, only the order in which the objects come into existence differs (C18 variation);
+        # "junk" allocations in between also move object addresses.
+        order = scn.get("creation_order") or range(len(self.nodes))
+        junk = scn.get("junk")
+        self._junk = []
+        for j, i in enumerate(order):
+            node = self.nodes[i]
             kids = [live[k] for k in node.get("kids", ())]
-            obj = S.node_construct(node, kids)
-            live.append(obj)
+            if any(k is None for k in kids):
+                raise HarnessError("creation_order is not topological")
+            if junk:
+                self._junk.append([object() for _ in range(junk[j % len(junk)])])
+            live[i] = S.node_construct(node, kids)
+        for i, obj in enumerate(live):
+            if obj is None:
+                raise HarnessError("creation_order does not cover the table")
             self.objs[f"n{i}"] = obj
             self.types[f"n{i}"] = E
         self.node_objs = live
+        self.esize = {}
+        sizes = []
+        for i, node in enumerate(self.nodes):
+            sizes.append(1 + sum(sizes[k] for k in node.get("kids", ())))
+            self.esize[f"n{i}"] = sizes[i]
         self.points = [S.make_point(c) for c in scn["points"]]
         self.var_names = scn.get("vars") or self._collect_vars()
 
@@ -324,6 +395,8 @@ class Run:
             "compared": 0, "bit_notes": 0, "msg_notes": 0,
             "snapshot_checks": 0,
         }
+        self._fresh_tree = {}         # name -> tree of its history-free re-derivation (asx / norm results)
+        self.step_info = {}           # step id -> run-time facts (life-cycle state of the target at that time)
         self.sigs = []                # state signature after each step (ints)
         self.trans = []               # (sig_before, kind, outcome-kind)
         self.snap = {}                # name -> snapshot (C10)
@@ -338,9 +411,27 @@ class Run:
         w.objs[name] = obj
         w.types[name] = typ
         w.creator[name] = step
+        if typ == E:
+            w.esize[name] = expanded_size(obj)
+        else:
+            src = step.get("e") or step.get("o")
+            w.esize[name] = w.esize.get(src, 1)
         if typ in (P, D):
             w.switched[name] = False
         return name
+
+    def _too_big(self, step, ops):
+        """Deterministic size guards: keep the harness's own tree walks (and the library's unmemoised
+        forward-mode traversals) away from exponentially large expansions of small DAGs."""
+        w = self.world
+        k = step["k"]
+        size_cap = self.scn.get("size_cap", SIZE_CAP)
+        if k == "build":
+            return 1 + sum(w.esize[n] for n in ops) > size_cap
+        heavy = k in ("asx", "norm") or (k == "mk" and step.get("early") and step["cls"] != "LocatedDifferential")
+        if heavy and max(w.esize[n] for n in ops) > self.scn.get("heavy_cap", HEAVY_CAP):
+            return True
+        return False
 
     def replica(self, name, cache, mode="recipe"):
         """Fresh, never-used copy of a pooled object.
@@ -354,6 +445,10 @@ class Run:
             obj = S.build_tree(self.snap[name]["tree"])
         elif name[0] == "n":
             obj = S.build_tree(w.node_tree(int(name[1:])))
+        elif name in self._fresh_tree:
+            # an expression is fully described by its tree: re-deriving it from fresh copies once
+            # (history-free by construction) and rebuilding that tree is the same fresh object, cheaper
+            obj = S.build_tree(self._fresh_tree[name])
         else:
             st = w.creator[name]
             out, obj = apply_op(st, lambda n: self.replica(n, cache, mode), w.fresh_point)
@@ -361,6 +456,11 @@ class Run:
                 raise ReplicaDiverged(name, out)
             if w.switched.get(name):
                 obj.as_expression()
+            if typ == E and st["k"] in ("asx", "norm") and mode == "recipe":
+                try:
+                    self._fresh_tree[name] = S.tree_of(obj)
+                except S.WalkerUnavailable:
+                    pass
         cache[name] = obj
         return obj
 
@@ -567,25 +667,31 @@ class Run:
         sig = self._memo_bits() if self.reach else 0
         for step in self.scn["steps"]:
             ops = _operands(step)
-            if any(n not in w.objs for n in ops):
+            if any(n not in w.objs for n in ops) or self._too_big(step, ops):
                 self.stats["skipped"] += 1
                 self.records.append((step, ("skip",)))
                 self.log.append(f"{step['id']}|{step.get('c', 0)}|{step['k']}|skip")
                 continue
             self._pre_probes(step)
+            if step["k"] == "at" and w.types.get(step["o"]) in (P, D):
+                self.step_info[step["id"]] = {"switched": bool(w.switched.get(step["o"]))}
             g0 = GIVEUP.count
             ff0 = self._count_evalfailed() if self.reach else 0
             out, obj = apply_op(step, w.objs.__getitem__, w.points.__getitem__)
             self.stats["ops"] += 1
             typ = result_type(step)
             if obj is not None:
-                name = self._bind(step, obj, typ)
                 try:
                     out = ("obj", typ, describe(obj, typ, w.var_names))
                 except S.WalkerUnavailable:
                     out = ("obj", typ, (repr(obj),))
-                if do_snapshot:
-                    self._take_snapshot(name)
+                if typ == E and (expanded_size(obj) > self.scn.get("size_cap", SIZE_CAP)
+                                 or pow_chain(obj) > POW_CHAIN_CAP):
+                    self.stats["oversized_results_not_pooled"] = self.stats.get("oversized_results_not_pooled", 0) + 1
+                else:
+                    name = self._bind(step, obj, typ)
+                    if do_snapshot:
+                        self._take_snapshot(name)
             if step["k"] == "asx" and obj is not None and w.types.get(step["o"]) in (P, D):
                 if not w.switched[step["o"]]:
                     w.switched[step["o"]] = True
